@@ -6,7 +6,10 @@
 
 package model
 
-import "istio.io/istio/pkg/config"
+import (
+	extensions "istio.io/api/extensions/v1alpha1"
+	"istio.io/istio/pkg/config"
+)
 
 // VerifC17SortConfigByCreationTime exposes sortConfigByCreationTime (sorts in place, returns the slice).
 func VerifC17SortConfigByCreationTime(configs []config.Config) []config.Config {
@@ -22,4 +25,38 @@ func VerifC17SortConfigBySelectorAndCreationTime(configs []config.Config) []conf
 // VerifC17PickBestVisibleNamespace exposes pickBestVisibleNamespace.
 func VerifC17PickBestVisibleNamespace(ps *PushContext, byNamespace map[string]*Service, configNamespace string) string {
 	return pickBestVisibleNamespace(ps, byNamespace, configNamespace)
+}
+
+// VerifC17PickFirstVisibleNamespace exposes pickFirstVisibleNamespace.
+func VerifC17PickFirstVisibleNamespace(ps *PushContext, byNamespace map[string]*Service, configNamespace string) string {
+	return pickFirstVisibleNamespace(ps, byNamespace, configNamespace)
+}
+
+// VerifC17ServiceIndex runs initDefaultExportMaps and initServiceRegistry (sort, alias resolution,
+// hostname winners, export lists) on a fresh PushContext for env; it returns the context and the
+// list of public services in index order.
+func VerifC17ServiceIndex(env *Environment) (*PushContext, []*Service) {
+	ps := NewPushContext()
+	ps.Mesh = env.Mesh()
+	ps.initDefaultExportMaps()
+	ps.initServiceRegistry(env, nil)
+	return ps, ps.ServiceIndex.public
+}
+
+// VerifC17EnvoyFilters runs initEnvoyFilters on a fresh PushContext for env and returns the merged
+// EnvoyFilters of the proxy.
+func VerifC17EnvoyFilters(env *Environment, proxy *Proxy) *MergedEnvoyFilterWrapper {
+	ps := NewPushContext()
+	ps.Mesh = env.Mesh()
+	ps.initEnvoyFilters(env, nil, nil)
+	return ps.EnvoyFilters(proxy)
+}
+
+// VerifC17TrafficExtensions runs initTrafficExtensions on a fresh PushContext for env and returns the
+// TrafficExtensions of the proxy by phase.
+func VerifC17TrafficExtensions(env *Environment, proxy *Proxy) map[extensions.TrafficExtension_ExecutionPhase][]*TrafficExtensionWrapper {
+	ps := NewPushContext()
+	ps.Mesh = env.Mesh()
+	ps.initTrafficExtensions(env)
+	return ps.TrafficExtensions(proxy)
 }
